@@ -123,6 +123,7 @@ func depth2(v interface{}, d int) bool {
 
 func checkC19(c CaseC19, info *Info) *Failure {
 	defer resetOptions()
+	bystanders()
 	scratch := os.Getenv("VERIF_SCRATCH")
 	if scratch == "" {
 		scratch = os.TempDir()
